@@ -7,12 +7,13 @@ import (
 	"github.com/tonistiigi/fsutil/zz_verif/v"
 )
 
-// specCmp is the component-wise path order: compare component by component, bytewise; a path
-// that is a proper prefix (at a component boundary) of another sorts first.
+// ---- executable specification, written from the statement of C12 (independent of path/filepath)
+
+// specCmp is the component-wise path order: compare component by component, bytewise; a path that
+// ends at a component boundary of the other sorts first.
 func specCmp(p, q string) int {
 	i, j := 0, 0
 	for {
-		// next components
 		pe, qe := i, j
 		for pe < len(p) && p[pe] != '/' {
 			pe++
@@ -51,8 +52,79 @@ func sign(x int) int {
 	return 0
 }
 
-// VH_C12_order: ComparePath agrees in sign with the component-wise order for all byte strings of
-// lengths (LP, LQ).
+// specWellFormed: a clean relative path that is neither "." nor ".." nor starts with "../":
+// non-empty, and every '/'-separated component is non-empty and neither "." nor "..".
+func specWellFormed(p string) bool {
+	if len(p) == 0 {
+		return false
+	}
+	start := 0
+	for i := 0; i <= len(p); i++ {
+		if i == len(p) || p[i] == '/' {
+			c := p[start:i]
+			if c == "" || c == "." || c == ".." {
+				return false
+			}
+			start = i + 1
+		}
+	}
+	return true
+}
+
+func specParent(p string) string {
+	for i := len(p) - 1; i >= 0; i-- {
+		if p[i] == '/' {
+			return p[:i]
+		}
+	}
+	return ""
+}
+
+// specValidator is the reference acceptor of C12.
+type specValidator struct {
+	any  bool
+	last string
+	dirs []string
+}
+
+func (s *specValidator) accept(p string, isDir, isDelete bool) bool {
+	if !specWellFormed(p) {
+		return false
+	}
+	if s.any && specCmp(s.last, p) >= 0 {
+		return false
+	}
+	par := specParent(p)
+	if par != "" {
+		found := false
+		for _, d := range s.dirs {
+			if d == par {
+				found = true
+			}
+		}
+		if !found {
+			return false
+		}
+	}
+	s.any, s.last = true, p
+	if isDir && !isDelete {
+		s.dirs = append(s.dirs, p)
+	}
+	return true
+}
+
+func statInfoFor(isDir bool) os.FileInfo {
+	mode := uint32(0644)
+	if isDir {
+		mode = uint32(os.ModeDir) | 0755
+	}
+	return &StatInfo{&types.Stat{Mode: mode}}
+}
+
+// ---- harnesses
+
+// VH_C12_order: ComparePath agrees in sign with the component-wise order, is zero exactly on equal
+// paths and antisymmetric, for all byte strings of lengths (LP, LQ).
 func VH_C12_order() {
 	lp, lq := v.Param("LP", 2), v.Param("LQ", 2)
 	p, q := v.String("p", lp), v.String("q", lq)
@@ -65,5 +137,52 @@ func VH_C12_order() {
 	v.Cover("done")
 }
 
-var _ = os.ModeDir
-var _ = types.Stat{}
+// VH_C12_trans: transitivity of the real comparison over triples.
+func VH_C12_trans() {
+	n := v.Param("N", 2)
+	a, b, c := v.String("a", v.Choose("la", n+1)), v.String("b", v.Choose("lb", n+1)), v.String("c", v.Choose("lc", n+1))
+	ab, bc, ac := ComparePath(a, b), ComparePath(b, c), ComparePath(a, c)
+	v.Observe("ab", sign(ab))
+	if ab < 0 && bc < 0 {
+		v.Cover("chain")
+		v.Assert(ac < 0, "ComparePath transitive")
+	}
+	if ab == 0 {
+		v.Assert(sign(bc) == sign(ac), "ComparePath respects equality")
+	}
+}
+
+// VH_C12_seq: for every sequence of K changes (path bytes of length <= N, kind in {dir, file,
+// delete}), the real validator accepts element i iff the reference acceptor does, up to and
+// including the first rejected element.
+func VH_C12_seq() {
+	k, n := v.Param("K", 2), v.Param("N", 2)
+	var val Validator
+	var spec specValidator
+	for i := 0; i < k; i++ {
+		p := v.String("p", v.Choose("len", n+1))
+		isDir := v.Bool("dir")
+		isDelete := v.Bool("del")
+		kind := ChangeKindAdd
+		if isDelete {
+			kind = ChangeKindDelete
+		}
+		err := val.HandleChange(kind, p, statInfoFor(isDir), nil)
+		want := spec.accept(p, isDir, isDelete)
+		v.Observe("accepted", err == nil)
+		if want {
+			v.Cover("spec-accepts")
+		} else {
+			v.Cover("spec-rejects")
+		}
+		if p == "." || p == ".." {
+			v.Assert((err == nil) == want, "validator rejects the paths \".\" and \"..\"")
+		} else {
+			v.Assert((err == nil) == want, "validator accepts exactly what the reference acceptor accepts")
+		}
+		if err != nil || !want {
+			return
+		}
+	}
+	v.Cover("all-accepted")
+}
